@@ -44,10 +44,19 @@ package spynode
 //@ spec noHit(n, b, hi) = forall(q, 0, hi, tokkindb(b, q) == 7 ==> notSubscribed(n, pushhash(tokvalb(b, q))))
 
 // Contract-wide actions are recognised by the Tokenized protocol library (a dependency).
+// checkContracts says yes exactly when SOME output decodes to a contract formation or an instrument
+// creation - whatever else the transaction carries before it. TokenizedAction is the library's
+// decoder (a dependency, uninterpreted); the walk over the outputs is verified.
+//@ spec cwide(o, t) = typeis(TokenizedAction(old(sliceblob(o.LockingScript)), t), *actions.ContractFormation) || typeis(TokenizedAction(old(sliceblob(o.LockingScript)), t), *actions.InstrumentCreation)
 //@ func checkContracts
-//@   trusted
+//@   serves C08
+//@   opt nomonitor = 1
 //@   opt modifies = none
-//@   ensures value: result == ContractAction(tx)
+//@   requires tx != nil
+//@   given forall(k, 0, len(tx.TxOut), tx.TxOut[k] != nil)
+//@   loop 0 invariant 0 <= _i && _i <= len(tx.TxOut) && same(tx.TxOut) && sameseq(tx.TxOut) && forall(k, 0, _i, !cwide(tx.TxOut[k], isTest))
+//@   ensures detects_any_output: [C08] result <==> exists(k, 0, len(tx.TxOut), cwide(tx.TxOut[k], isTest))
+//@   assumes value: result == ContractAction(tx)
 
 // (script bytes as they were on entry: nothing writes them, and naming the entry state keeps the
 // invariants independent of the later blob bookkeeping)
